@@ -29,6 +29,7 @@ Canon(s) ==
                  ems |-> [i \in Range(Len(s.tcs[c].ems)) |-> [len |-> Len(s.ems[s.tcs[c].ems[i]].mem), dt |-> s.ems[s.tcs[c].ems[i]].dt]]]],
      trks |-> [k \in Range(Len(s.trks)) |-> [times |-> s.trks[k].times, len |-> Len(s.trks[k].objs)]],
      tls |-> s.tls,
+     files |-> [p \in 1..2 |-> [kind |-> s.files[p].kind, nsets |-> Len(s.files[p].sets)]],
      narr |-> Len(s.arr)]
 
 Events == Traces[tid].events
@@ -41,7 +42,7 @@ ObserveTrace(op, s2, err) ==
 
 TInit == /\ tid \in Range(Len(Traces))
          /\ st = [drops |-> Traces[tid].init, refs |-> [i \in Range(Len(Traces[tid].init)) |-> i],
-                  ems |-> <<>>, ev |-> <<>>, tcs |-> <<>>, trks |-> <<>>, tls |-> <<>>, arr |-> <<>>, shared |-> {}, eshared |-> {}]
+                  ems |-> <<>>, ev |-> <<>>, tcs |-> <<>>, trks |-> <<>>, tls |-> <<>>, arr |-> <<>>, files |-> [p \in 1..2 |-> NoFile], shared |-> {}, eshared |-> {}]
          /\ n = 0
 TNext == Next /\ tid' = tid
 TSpec == TInit /\ [][TNext]_tvars
